@@ -99,4 +99,4 @@ def run(ctx, rep):
         direct = [callee_name(t) for _, t in eb.calls() if re.search(r"std::io::Write::|BitWrite::", t["f"].get("path") or "")]
         rep.check("C14.count", "Encoder::encode emits bytes only through encode_frame", not direct and len(call_blocks(eb, r"encode::encode_frame$")) == 1, loc_of(eb), str(direct))
     from rules import C09 as _C09
-    _C09.run(ctx, SubReport(rep, "C09", "C14.fin", only=r"^C09\.(start|order)$"))
+    compose(ctx, rep, "C09", "C14.fin", r"^C09\.(start|order)$")
